@@ -118,6 +118,28 @@ Theorem source_loops_pinned :
 Proof. exact Layout.source_loops_pinned_lemma. Qed.
 Print Assumptions source_loops_pinned.
 
+(** ... and the string comparisons of the lookups *)
+Theorem source_compares_pinned :
+  vscheckclass_compare =
+    "if(strncmp(vsclass,_HDF_CHK_TBL_CLASS,len))ret_value=strcmp(vsclass,vs->vsclass)?FALSE:TRUE;elseret_value=strncmp(vsclass,vs->vsclass,len)?FALSE:TRUE;"%string /\
+  vscheckclass_user = "if(vsclass==NULL){if(VSisinternal(vs->vsclass)==FALSE)ret_value=TRUE;}"%string /\
+  vsisinternal_test =
+    "if(strncmp(HDF_INTERNAL_VDS[i],classname,strlen(HDF_INTERNAL_VDS[i]))==0){ret_value=TRUE;break;}"%string /\
+  visinternal_test =
+    "if(strncmp(HDF_INTERNAL_VGS[i],classname,strlen(HDF_INTERNAL_VGS[i]))==0){ret_value=TRUE;break;}"%string /\
+  vfind_test = "if(vg->vgname!=NULL)if(!strcmp(vgname,vg->vgname))HGOTO_DONE((int32)(vg->oref));"%string /\
+  vfindclass_test = "if(vg->vgclass!=NULL)if(!strcmp(vgclass,vg->vgclass))HGOTO_DONE((int32)(vg->oref));"%string /\
+  vsfind_test = "if(!strcmp(vsname,vs->vsname))HGOTO_DONE((int32)(vs->oref));"%string /\
+  vsfindclass_test = "if(!strcmp(vsclass,vs->vsclass))HGOTO_DONE((int32)(vs->oref));"%string.
+Proof. exact Layout.source_compares_pinned_lemma. Qed.
+Print Assumptions source_compares_pinned.
+
+(** the class lookup of VSofclass (vscheckclass) with an ordinary class name is exact: no prefix matching *)
+Theorem class_lookup_exact : forall t r q, is_prefix _HDF_CHK_TBL_CLASS q = false ->
+  (vscheckclass t r (Some q) = true <-> exists v, tget r t = Some v /\ s_class v = q /\ q <> []).
+Proof. exact class_lookup_exact_lemma. Qed.
+Print Assumptions class_lookup_exact.
+
 (** every entry point of the three source files is driven, reached, or assigned elsewhere *)
 Theorem api_accounted :
   forallb (fun f => existsb (String.eqb f) (Layout.api_driven ++ Layout.api_indirect ++ Layout.api_elsewhere))
@@ -209,3 +231,13 @@ Example ex_hist_spec : s_trace init ex_hist =
 Proof. vm_compute. reflexivity. Qed.
 Example ex_hist_model : m_trace minit ex_hist = s_trace init ex_hist.
 Proof. vm_compute. reflexivity. Qed.
+
+(** two vdata classes that agree in their first 13 characters: the lookup tells them apart; a chunk-table query does not *)
+Example ex_class_lookup :
+  let t := [(3, mkvs [97] [84;101;109;112;101;114;97;116;117;114;101;95;50;109;95;109;105;110] []);
+            (4, mkvs [98] [84;101;109;112;101;114;97;116;117;114;101;95;50;109;95;109;97;120] []);
+            (5, mkvs [99] (_HDF_CHK_TBL_CLASS ++ [49]) [])] in
+  let q := [84;101;109;112;101;114;97;116;117;114;101;95;50;109;95;109;105;110] in
+  (vscheckclass t 3 (Some q), vscheckclass t 4 (Some q), vscheckclass t 5 (Some (_HDF_CHK_TBL_CLASS ++ [48]))) =
+  (true, false, true) /\ is_prefix _HDF_CHK_TBL_CLASS q = false.
+Proof. vm_compute. split; reflexivity. Qed.
